@@ -179,7 +179,67 @@ def e2(run: Run, prog: Program):
     a3_option_flow(run, prog, "E2", FILES)
 
 
+# (method, locals assumed exchange-symmetric with the reason)
+EXCHANGE_FUNCS = [
+    ("event_coincidence_analysis", {}),
+    ("_eca_coincidence_rate", {}),
+    ("event_synchronization", {}),
+]
+
+
+def e4(run: Run, prog: Program):
+    """Exchange consistency of the pairwise kernels (see exchange.py)."""
+    from .exchange import Exchange
+    es = prog.classes.get("EventSeries")
+    if es is None:
+        raise AnalysisError("EventSeries vanished")
+    n = 0
+    for mname, assumed in EXCHANGE_FUNCS:
+        m = es.methods.get(mname)
+        if m is None:
+            raise AnalysisError(f"EventSeries.{mname} vanished")
+        ps = [p_ for p_ in m.params if p_ not in ("self", "cls")]
+        # the two sequences and their time stamps: parameters in pairs
+        # (seq_x, seq_y, ...) and (ts1, ts2) - by position, then by stem
+        seeds = {}
+        if len(ps) >= 2:
+            seeds[ps[0]] = ps[1]
+        ts = [p_ for p_ in ps[2:] if p_[-1:] in "12" and p_[:-1] and
+              p_[:-1] + ("2" if p_[-1] == "1" else "1") in ps]
+        for p_ in ts:
+            if p_.endswith("1"):
+                seeds[p_] = p_[:-1] + "2"
+        ex = Exchange(m.node, seeds, symmetric=tuple(assumed)).run()
+        n += len(ex.assigns)
+        for a, why in assumed.items():
+            run.assumptions.append(f"E4 {mname}: `{a}` taken as exchange-symmetric ({why})")
+        bad = {}
+        for name, line, msg in ex.findings:
+            bad.setdefault(name, (line, msg))
+        for (path, a, v, st) in ex.assigns:
+            run.oblige("E4", f"{mname}:{a}@{st.lineno}", a not in bad, sample={
+                "where": f"{m.module.relpath}:{st.lineno}", "local": a,
+                "partner": ex.sw.get(a)})
+        for path, r in ex.returns:
+            run.oblige("E4", f"{mname}:return@{r.lineno}", "return" not in bad or
+                       bad["return"][0] != r.lineno)
+        for name, (line, msg) in sorted(bad.items()):
+            run.add("E4", f"EventSeries.{mname}/{name}", f"{m.module.relpath}:{line}",
+                    f"EventSeries.{mname} is not exchange consistent: {msg}. Exchanging "
+                    f"the two event sequences then does not exchange the two returned "
+                    f"directions")
+        run.extra.setdefault("exchange_pairs", {})[mname] = sorted(
+            {"<->".join(sorted(p_[:2])) for p_ in ex.pairs}) + \
+            [f"antisymmetric:{a}" for a in sorted(ex.anti)] + \
+            [f"shift:{a}" for a, _ in ex.shifts] + \
+            [f"symmetric-transposed:{a}" for a in sorted(ex.symT)]
+    run.floor("E4 statements analysed", n, 40)
+
+
 def check(run: Run, prog: Program):
+    run.rule("E4", "the pairwise ES/ECA kernels are exchange consistent: swapping the "
+             "roles of the two sequences maps every statement onto a statement of the "
+             "same branch and the first returned direction onto the second")
     run.rule("E1", "the symmetrisation registry is exhaustive and consistently bound: "
              "every accepted name is a key, every key is accepted somewhere, key k is "
              "bound to _symmetrization_k, lookups use the validated name")
@@ -188,10 +248,13 @@ def check(run: Run, prog: Program):
     run.rule("E3", "the memoised directed event-synchronisation matrix is never "
              "edited in place (symmetrisation helpers are pure)")
     run.explanation = (
-        "Registry/option clauses of C16. The counting formulas, ranges and "
-        "symmetries of the values are NOT decided.")
+        "Registry/option clauses of C16 and the exchange-consistency clause "
+        "(decided syntactically by role swapping with a polynomial normal form for "
+        "comparisons). The counting formulas themselves, ranges, shift and rescaling "
+        "invariance of the values are NOT decided.")
     e1(run, prog)
     e2(run, prog)
+    e4(run, prog)
     from .rules_c06 import p1_restricted
     p1_restricted(run, "E3", prog, lambda o: o.startswith("cached:EventSeries."),
                   "memoised event-synchronisation matrix", floor=1)
